@@ -100,6 +100,38 @@ def tveRunBy (pick : List Nat → List TNode → Nat) (A : List Nat) (rules : Li
   let st := tveLoopBy pick A n n (List.range n) ⟨tInit A rules [], []⟩
   tMakeResult n st.finals
 
+/-! ## FactorGraph::getFactor: the incremental neighbour lists as written -/
+
+/-- the loop of `getFactor` over `variables` (index i) and the old sorted `va.vNeighbors[0..mid)` (index j): the keys pushed
+    behind the old ones — those of `variables` other than `a` not met in the old list -/
+def nbPush (a : Nat) : List Nat → List Nat → List Nat
+  | [], _ => []
+  | x :: xs, [] => if x = a then nbPush a xs [] else x :: nbPush a xs []
+  | x :: xs, y :: ys =>
+    if x = a then nbPush a xs (y :: ys)
+    else if x < y then x :: nbPush a xs (y :: ys)
+    else if x = y then nbPush a xs ys
+    else nbPush a (x :: xs) ys
+termination_by vars old => vars.length + old.length
+
+/-- `std::inplace_merge` of two ascending ranges -/
+def mergeS : List Nat → List Nat → List Nat
+  | [], r => r
+  | l, [] => l
+  | x :: l, y :: r => if y < x then y :: mergeS (x :: l) r else x :: mergeS l (y :: r)
+termination_by l r => l.length + r.length
+
+/-- `va.vNeighbors` after `getFactor(variables)` registered a factor containing `a` -/
+def nbUnion (a : Nat) (vars old : List Nat) : List Nat := mergeS old (nbPush a vars old)
+
+/-- all neighbour lists after `getFactor(vars)`: only the agents of `vars` are touched -/
+def nbRegister (vars : List Nat) (vn : List (List Nat)) : List (List Nat) :=
+  (List.range vn.length).map (fun a => if vars.contains a then nbUnion a vars (vn.getD a []) else vn.getD a [])
+
+/-- neighbour lists after the graph has been built by `getFactor` calls in this order -/
+def nbBuild (n : Nat) (scopes : List (List Nat)) : List (List Nat) :=
+  scopes.foldl (fun vn s => nbRegister s vn) (List.replicate n [])
+
 /-! ## QFunction (= FactoredVector: a list of bases `tag`, dense `values`) -/
 
 structure Basis where
